@@ -5,11 +5,13 @@
 mod mon;
 mod report;
 mod sim;
+mod util;
 
 use report::{Ctx, Report};
 
 fn dispatch(id: &str, ctx: &Ctx) -> Option<Report> {
     Some(match id {
+        "C01" => mon::c01::run(ctx),
         "C04" => mon::c04::run(ctx),
         _ => return None,
     })
